@@ -17,6 +17,47 @@ def gen_cases(rng, n):
         cases.append("%d %s" % (seedv, vlib.hexs(data)))
     return cases
 
+def oab_tamper(res, tier, rng):
+    """OAB files / patches: one byte of an LZX block's payload, of its uncompressed-size field or of its stored CRC altered -> error, or the original bytes"""
+    import struct
+    from vlib import scenario
+    from props import oablib
+    ok, log, iexe = vlib.build_impl("asan")
+    if not ok: res.oblige("C harness builds", False, log[-300:]); return
+    scns = []; meta = []
+    for i in range(6 if tier == "quick" else 60):
+        patch = i % 2 == 1
+        if patch: f, base, plain, lab = oablib.patch_case(rng)
+        else:
+            from vlib import oabfmt
+            f, plain = oabfmt.build_full(rng, [rng.choice([100, 5000, 40000]) for _ in range(rng.randrange(1, 3))], kinds=None); base = None; lab = "full"
+        hdr = 28 if patch else 16
+        # walk the blocks
+        pos = hdr; blocks = []
+        while pos + 16 <= len(f):
+            a, b, c, d = struct.unpack_from("<IIII", f, pos)
+            if patch: csize, lzx = a, True
+            else: csize, lzx = b, a == 1
+            if lzx and csize: blocks.append((pos, csize))
+            pos += 16 + csize
+        for (bp, cs) in blocks:
+            for _ in range(6 if tier == "quick" else 12):
+                r = rng.random(); t = bytearray(f)
+                if r < 0.6: o = bp + 16 + rng.randrange(cs); kind = "payload"
+                elif r < 0.8: o = bp + (4 if patch else 8) + rng.randrange(4); kind = "dsize"
+                else: o = bp + 12 + rng.randrange(4); kind = "crc"
+                t[o] ^= rng.choice([1, 0x80, 0xFF, rng.randrange(1, 256)])
+                sc = oablib.scn_patch(bytes(t), base, 4096) if patch else oablib.scn_full(bytes(t), 4096)
+                scns.append(sc); meta.append((lab, kind, o, plain))
+    trs = scenario.run_scenarios(iexe, scns, timeout_each=60); nbad = 0
+    for t, sc, (lab, kind, o, plain) in zip(trs, scns, meta):
+        res.evaluations += 1; res.nontrivial.add("oab%d%s" % (o, lab)); res.count("oab-tamper-" + kind)
+        if t.crash or t.hang: continue
+        c = oablib.c_result(t)
+        if c.split()[0] == "0" and c != "0 " + plain.hex():
+            nbad += 1; res.violation("OAB %s with byte %d (%s) altered: decompress returned OK with different content" % (lab, o, kind), sc.text(), key="c12:oab")
+    res.oblige("search: %d single-byte alterations of OAB LZX blocks (payload / size / CRC) never give OK with different bytes" % len(scns), nbad == 0)
+
 def run(res, tier, replay):
     rng = random.Random(vlib.seed() * 7919 + 12)
     res.rule = ("cases = (seed, buffer) pairs, lengths 0..600 biased to the 4-byte lane boundaries; non-trivial = distinct buffers of length >= 1; "
@@ -37,6 +78,7 @@ def run(res, tier, replay):
     res.oblige("correspondence: model cksum = C cabd_checksum on %d buffers" % len(cases), not diffs, str(diffs[:2]))
     from props import cabtamper
     tam = cabtamper.search(res, tier, rng)
+    oab_tamper(res, tier, rng)
     if not proofs_ok or diffs:
         def s():
             for case, m, i in (diffs or [])[:1]:
